@@ -14,7 +14,7 @@ Definition is_list_ok (k : svkind) (a : ain) : list value :=
   end.
 
 Local Ltac crush_step s :=
-  destruct s as [c e ms m ov' va ma f dt pl dg]; destruct c, e, m as [[? ?]|];
+  destruct s as [c e ms m ov' va ma f dt pl dg]; destruct c, e, m as [[[? ?] ?]|];
   unfold step, is_list_ok, collect, diag; cbn [s_custom s_error s_msg s_diags];
   repeat match goal with
          | |- context [classify ?p] => destruct (classify p) as [[]|]
@@ -33,7 +33,7 @@ Lemma finish_keeps s :
   s_mattrs (finish s) = s_mattrs s /\ s_messages (finish s) = s_messages s /\ s_overrides (finish s) = s_overrides s /\
   s_msg (finish s) = s_msg s /\ s_custom (finish s) = s_custom s /\ s_error (finish s) = s_error s /\ s_vattrs (finish s) = s_vattrs s.
 Proof.
-  unfold finish. destruct (s_vattrs s) eqn:Ev; [rewrite Ev; repeat split|]. destruct (s_msg s) as [[ty mv]|] eqn:Em; [|rewrite Ev, Em; repeat split].
+  unfold finish. destruct (s_vattrs s) eqn:Ev; [rewrite Ev; repeat split|]. destruct (s_msg s) as [[[ty rs] mv]|] eqn:Em; [|rewrite Ev, Em; repeat split].
   destruct ("Instantiate" =? ty); [cbn; rewrite Ev, Em; repeat split|]. destruct ("Migrate" =? ty); cbn; rewrite Ev, Em; repeat split.
 Qed.
 
@@ -57,9 +57,9 @@ Proof.
 Qed.
 
 (* the single attributes: the FIRST well-formed occurrence wins, a later one is refused with a diagnostic *)
-Definition msg_of (a : ain) : list (string * value) :=
+Definition msg_of (a : ain) : list (string * value * value) :=
   match classify (a_path a), a_content a with
-  | Some KMsg, IsList true v => [(a_msg_type a, v)]
+  | Some KMsg, IsList true v => [(a_msg_type a, a_resp a, v)]
   | _, _ => []
   end.
 
@@ -80,7 +80,7 @@ Proof. intros H. crush_step s; cbn in H; try exact H; apply in_or_app; left; exa
 
 Lemma finish_diags_grow s x : In x (s_diags s) -> In x (s_diags (finish s)).
 Proof.
-  intros H. unfold finish. destruct (s_vattrs s); [exact H|]. destruct (s_msg s) as [[ty mv]|]; [|exact H].
+  intros H. unfold finish. destruct (s_vattrs s); [exact H|]. destruct (s_msg s) as [[[ty rs] mv]|]; [|exact H].
   destruct ("Instantiate" =? ty); [apply in_or_app; left; exact H|].
   destruct ("Migrate" =? ty); [apply in_or_app; left; exact H | exact H].
 Qed.
@@ -109,8 +109,8 @@ Proof.
 Qed.
 
 (* `sv::attr(..)` on an instantiate / migrate handler is refused *)
-Theorem variant_attr_on_struct_message_is_refused l ty v :
-  s_msg (fold_left step l init) = Some (ty, v) -> s_vattrs (fold_left step l init) <> [] ->
+Theorem variant_attr_on_struct_message_is_refused l ty rs v :
+  s_msg (fold_left step l init) = Some (ty, rs, v) -> s_vattrs (fold_left step l init) <> [] ->
   (ty = "Instantiate" -> In (VStr "The attribute `sv::attr` is not supported for `instantiate`") (s_diags (finish (fold_left step l init)))) /\
   (ty = "Migrate" -> In (VStr "The attribute `sv::attr` is not supported for `migrate`") (s_diags (finish (fold_left step l init)))).
 Proof.
